@@ -46,11 +46,16 @@ def sp_sexp(kind, fs):
 
 
 def canon(o):
-    """as_tuple() canonicalised exactly like the model's tupleSexp."""
-    from malt.core import converter
-    t = o.as_tuple()
+    """Canonical text of an options value, read from its FIELDS (never through as_tuple()/==/hash of the class under
+    test, and total on whatever the fields hold)."""
+    converter = _malt()[0]
     order = {f: k for k, f in enumerate(converter.Feature)}
-    return sexp([bool(t[0]), bool(t[1]), bool(t[2]), [f.name for f in sorted(t[3], key=order.get)]])
+    try:
+        feats = list(o.optional_features)
+    except Exception:      # noqa
+        feats = [repr(o.optional_features)]
+    names = [f.name if f in order else repr(f) for f in sorted(feats, key=lambda f: (order.get(f, 99), repr(f)))]
+    return sexp([bool(o.recursive), bool(o.user_requested), bool(o.internal_convert_user_code), names])
 
 
 def fields_equal(a, b):
